@@ -4,7 +4,10 @@
 (* A gophermap `gm` is a record: kind ("dir": the file `gophermap` of a directory; "file": a *)
 (* `*.gophermap` file), sel (the selector requested), dir (the selector of the directory    *)
 (* that holds the file), lines (the text lines, without terminators), eol (the terminator   *)
-(* written after every line), srv (this server's advertised name and port).                 *)
+(* written after every line), srv (this server's advertised name and port), fixtures (what   *)
+(* exists in the document root besides the map: <<[p |-> selector, k |-> "file" | "dir"]>>). *)
+(* In line text the tokens {NUL} and {HI} stand for the byte 0x00 and for a byte >= 0x80     *)
+(* that is not UTF-8 (gamma/alpha substitute them; TLA+ strings cannot spell them).          *)
 (*                                                                                          *)
 (*   ImplEntries(gm)  handlers/gophermap.py BuckGophermapHandler.prepare AS CODED (tab test *)
 (*                    on the raw line, split/strip, field defaults, the crashes on an empty *)
@@ -28,7 +31,22 @@ Range(q) == {q[i] : i \in 1..Len(q)}
 RECURSIVE NatToStr(_)
 NatToStr(n) == IF n < 10 THEN Ch("0123456789", n + 1) ELSE NatToStr(n \div 10) \o Ch("0123456789", (n % 10) + 1)
 
-InfoEntry(text) == [type |-> "i", name |-> text, sel |-> "fake", host |-> SomeS("(NULL)"), port |-> SomeS("0")]
+InfoEntry(text) == [type |-> "i", name |-> text, sel |-> "fake", host |-> SomeS("(NULL)"), port |-> SomeS("0"),
+                    plus |-> FALSE]
+
+\* vfs.exists(selector): os.path.exists of root + selector.  FALSE for every reason stat() can fail:
+\* nothing there (ENOENT), the path runs THROUGH a regular file (ENOTDIR: "x/extra", the virtual
+\* selectors of the mbox / ZIP / PYG handlers), a component longer than NAME_MAX (ENAMETOOLONG),
+\* an embedded NUL (ValueError), a name that is not there because of an odd byte.  The models only
+\* use selectors without "." / ".." / "//" / trailing "/", so existence is a literal look-up.
+NameMax == 255
+Exists(gm, sel) == \E i \in 1..Len(gm.fixtures) : gm.fixtures[i].p = sel
+StatClass(gm, sel) ==           \* why stat() fails (design level; every class but "ok" means "does not exist")
+    IF Exists(gm, sel) THEN "ok"
+    ELSE IF Contains(sel, "{NUL}") THEN "nul"
+    ELSE IF \E c \in Range(Split(sel, "/")) : Len(c) > NameMax THEN "enametoolong"
+    ELSE IF \E i \in 1..Len(gm.fixtures) : gm.fixtures[i].k = "file" /\ StartsWith(sel, gm.fixtures[i].p \o "/") THEN "enotdir"
+    ELSE "enoent"
 
 (* ======================================================================================= *)
 (*                               I M P L E M E N T A T I O N                                *)
@@ -58,7 +76,13 @@ ImplLine(gm, raw) ==
                          port |-> IF Len(args) >= 4 /\ Len(args[4]) > 0
                                   THEN SomeS(IF ParseInt(args[4]) < 0 THEN "-" \o NatToStr(0 - ParseInt(args[4]))
                                              ELSE NatToStr(ParseInt(args[4])))
-                                  ELSE NoS]]
+                                  ELSE NoS,
+                         \* a link on THIS server whose target exists is populated from the file system
+                         \* (gopherpsupport: the "+" of the menu line); a target that cannot be stat()ed
+                         \* for whatever reason is simply not populated - the entry is listed all the same
+                         plus |-> ~(Len(args) >= 3 /\ Len(args[3]) > 0) /\ ~(Len(args) >= 4 /\ Len(args[4]) > 0)
+                                  /\ StatClass(gm, IF Ch(selector, 1) # "/" /\ ~StartsWith(selector, "URL:")
+                                                   THEN ImplBase(gm) \o "/" \o selector ELSE selector) = "ok"]]
     ELSE [crash |-> FALSE, e |-> InfoEntry(Strip(line))]
 
 \* an exception in prepare() is not an IOError: no listing at all
@@ -70,7 +94,8 @@ ImplEntries(gm) ==
 \* rfc1436.renderobjinfo as lexed by alpha: the five fields of a menu line
 GopherRow(e, srv) ==
     [kind |-> "menu", type |-> e.type, name |-> e.name, form |-> "fields", sel |-> e.sel,
-     host |-> IF e.host.s THEN e.host.v ELSE srv.host, port |-> IF e.port.s THEN e.port.v ELSE srv.port, url |-> ""]
+     host |-> IF e.host.s THEN e.host.v ELSE srv.host, port |-> IF e.port.s THEN e.port.v ELSE srv.port, url |-> "",
+     plus |-> e.plus]
 ImplGopherView(gm) ==
     LET r == ImplEntries(gm) IN [ok |-> r.ok, rows |-> [i \in 1..Len(r.es) |-> GopherRow(r.es[i], gm.srv)]]
 
